@@ -38,12 +38,12 @@ impl Comment {
         buf.add_str("/*");
         match indent.cmp(&existing) {
             Ordering::Greater => {
-                let start = buf.format().get_indent(indent - existing);
-                buf.add_str(&self.0.replace('\n', start));
+                let start = buf.format().indent(indent - existing);
+                buf.add_str(&self.0.replace('\n', &start));
             }
             Ordering::Less => {
-                let start = buf.format().get_indent(existing - indent - 1);
-                buf.add_str(&self.0.replace(start, "\n"));
+                let start = buf.format().indent(existing - indent - 1);
+                buf.add_str(&self.0.replace(&*start, "\n"));
             }
             Ordering::Equal => {
                 buf.add_str(&self.0);
